@@ -1018,6 +1018,8 @@ func main() {
 				{"mint", "Mint", "TransactionFees"},
 				{"wallet", "", "inputsWithoutDLEQ"},
 				{"nut11", "", "IsSigAll"}, {"nut11", "", "DuplicateSignatures"}, {"nut11", "", "ParseP2PKTags"}, {"nut11", "", "HasValidSignatures"}, {"nut11", "", "VerifyP2PKLockedProof"}, {"nut11", "", "PublicKeys"}, {"nut11", "", "ProofsSigAll"}, {"nut14", "", "VerifyHTLCProof"},
+				// (mint.verifyBlindedMessages translates as well - all its callees are tied - but its equality with the model's
+				// two-loop function over per-output messages is not proved yet; it stays with Tie.Spend's frozen text and the streams)
 				{"nut10", "SecretKind", "String"},
 				{"nut04", "State", "String"}, {"nut04", "", "StringToState"},
 				{"nut05", "State", "String"}, {"nut05", "", "StringToState"},
